@@ -385,7 +385,7 @@ structure WFFDefP (ty : String → Bool) (f : FDefP) : Prop where
   specToks : SpecToks false f.specs
   specVals : SpecVals f.specs
   sawType : sawAfter false f.specs = true
-  params : WFPL f.fd.params
+  params : WFPLV f.fd.params
   body : WFSL ty f.body
 
 /-- **`_parse_external_declaration`** on a function definition with a prototype parameter list -/
